@@ -8,7 +8,8 @@
         AxCut positional machine  ⟷  abstract backend machine  ⟷  RV64 machine:
   position i of the abstract machine (temporaries 2i, 2i+1) is held by the registers `X(2i+4)`, `X(2i+5)`
   (there are no spills on RV64), typed by the context (an integer is the same word on both machines; the tag
-  of an object is `n` resp. `4·n`, a reference an object id resp. the address of the head block), the
+  of an object is `n` resp. `4·n`, a reference an object id resp. the address of the head block, the word of a
+  closure an abstract code address resp. the address `cw i` / `τ id j` of its method table), the
   abstract heap is represented by the machine memory through `HRef` (Props/C09Refine.lean) ∘ `HeapRel`
   (Props/C08RV.lean).  The code at the program counter is the code the generator emits for the current
   statement in the current context from SOME label counter (`KAt`), up to the plain comments that the
@@ -55,11 +56,11 @@ theorem C08_loaded_layout (lines : List (Nat × Code)) (hb : ∀ x ∈ lines, ¬
   loaded_layout lines hb
 
 /-- rung 1, the initial state -/
-theorem C08_init {mc : MonCfg} {α : Word → Word} {args : List Word} {regs : Array (Option Word)} {e a : Nat}
+theorem C08_init {mc : MonCfg} {cw : Nat → Word} {τ : Nat → Nat → Word} {args : List Word} {regs : Array (Option Word)} {e a : Nat}
     {Γ : Ctx} (hr : entryRegs args = some regs) (hlen : Γ.length = args.length)
     (hext : ∀ b ∈ Γ, b.chi = .ext) (hcap : Γ.length ≤ 14) (htop : heapBase + mc.heapBytes ≤ 2 ^ 63)
     (hl : 128 ≤ mc.heapBytes) (ι : Nat → Nat) :
-    X3 mc α Γ (initConfig a args) (Scc.Heap.init heapBase (heapBase + mc.heapBytes)) ι
+    X3 mc cw τ Γ (initConfig a args) (Scc.Heap.init heapBase (heapBase + mc.heapBytes)) ι
       { regs := regs, mem := ∅, pc := e } :=
   x3_init hr hlen hext hcap htop hl ι
 
@@ -67,7 +68,7 @@ theorem C08_init {mc : MonCfg} {α : Word → Word} {args : List Word} {regs : A
 
 section Rung2
 
-variable {mc : MonCfg} {α : Word → Word} {p : RV.Program} {ks : List Code} (L : Loaded p ks)
+variable {mc : MonCfg} {cw : Nat → Word} {τ : Nat → Nat → Word} {p : RV.Program} {ks : List Code} (L : Loaded p ks)
   (hndL : (labs ks).Nodup) (hheap : mc.heap = false)
 
 include L hndL hheap in
@@ -76,14 +77,14 @@ theorem C08_lit_rv {P : Abs.Program} {hooks : Bool} {prog : AxCut.Prog} {Γ : Ct
     {n : Int} {next : Stmt} {fv : FV} {cfg : Config}
     (R : RelX P hooks prog ⟨Γ, ρ, .lit x n next fv⟩ cfg)
     (hfresh : ∀ b ∈ Γ, b.var.id ≠ x.id) (hcap : 2 * (Γ.length + 1) + 2 < Mock.T_TEMP)
-    {hs : HState} {ι : Nat → Nat} {st : State} (X : X3 mc α Γ cfg hs ι st)
+    {hs : HState} {ι : Nat → Nat} {st : State} (X : X3 mc cw τ Γ cfg hs ι st)
     {kx kx' : Nat} {items : List Code}
     (hrunX : (codeStatementR rvBackend hooks natRen prog.types (.lit x n next fv) Γ).run kx = .ok (items, kx'))
     (hatX : KAt ks st.pc items) :
     ∃ cfg' st', stepsTo P 1 cfg cfg' ∧ Reach p mc st st' ∧
-      cfg'.out = cfg.out ∧ cfg'.next = cfg.next ∧
+      cfg'.out = cfg.out ∧ cfg'.next = cfg.next ∧ FrameFacts cfg cfg' Γ.length ∧
       RelX P hooks prog ⟨Γ ++ [⟨x, .ext, .i64⟩], ρ ++ [.int (BitVec.ofInt 64 n)], next⟩ cfg' ∧
-      X3 mc α (Γ ++ [⟨x, .ext, .i64⟩]) cfg' hs ι st' ∧
+      X3 mc cw τ (Γ ++ [⟨x, .ext, .i64⟩]) cfg' hs ι st' ∧
       ∃ k1 k1' items', (codeStatementR rvBackend hooks natRen prog.types next
           (Γ ++ [⟨x, .ext, .i64⟩])).run k1 = .ok (items', k1') ∧ KAt ks st'.pc items' :=
   lit_x3 L hndL hheap R hfresh hcap X hrunX hatX
@@ -95,14 +96,14 @@ theorem C08_op_rv {P : Abs.Program} {hooks : Bool} {prog : AxCut.Prog} {Γ : Ctx
     (R : RelX P hooks prog ⟨Γ, ρ, .op x a o b next fv⟩ cfg)
     (hfresh : ∀ b' ∈ Γ, b'.var.id ≠ x.id) (hcap : 2 * (Γ.length + 1) + 2 < Mock.T_TEMP)
     (ha : readInt Γ ρ a = .ok va) (hb : readInt Γ ρ b = .ok vb) (hv : Pos.evalOp o va vb = .ok v)
-    {hs : HState} {ι : Nat → Nat} {st : State} (X : X3 mc α Γ cfg hs ι st)
+    {hs : HState} {ι : Nat → Nat} {st : State} (X : X3 mc cw τ Γ cfg hs ι st)
     {kx kx' : Nat} {items : List Code}
     (hrunX : (codeStatementR rvBackend hooks natRen prog.types (.op x a o b next fv) Γ).run kx = .ok (items, kx'))
     (hatX : KAt ks st.pc items) :
     ∃ cfg' st', stepsTo P 1 cfg cfg' ∧ Reach p mc st st' ∧
-      cfg'.out = cfg.out ∧ cfg'.next = cfg.next ∧
+      cfg'.out = cfg.out ∧ cfg'.next = cfg.next ∧ FrameFacts cfg cfg' Γ.length ∧
       RelX P hooks prog ⟨Γ ++ [⟨x, .ext, .i64⟩], ρ ++ [.int v], next⟩ cfg' ∧
-      X3 mc α (Γ ++ [⟨x, .ext, .i64⟩]) cfg' hs ι st' ∧
+      X3 mc cw τ (Γ ++ [⟨x, .ext, .i64⟩]) cfg' hs ι st' ∧
       ∃ k1 k1' items', (codeStatementR rvBackend hooks natRen prog.types next
           (Γ ++ [⟨x, .ext, .i64⟩])).run k1 = .ok (items', k1') ∧ KAt ks st'.pc items' :=
   op_x3 L hndL hheap R hfresh hcap ha hb hv X hrunX hatX
@@ -113,13 +114,13 @@ theorem C08_ifc_rv {P : Abs.Program} {hooks : Bool} {prog : AxCut.Prog} {Γ : Ct
     {b : Option Ident} {srt : IfSort} {t e : Stmt} {cfg : Config} {va vb : Word}
     (R : RelX P hooks prog ⟨Γ, ρ, .ifc srt a b t e⟩ cfg) (ha : readInt Γ ρ a = .ok va)
     (hb : match b with | none => vb = 0 | some b' => readInt Γ ρ b' = .ok vb)
-    {hs : HState} {ι : Nat → Nat} {st : State} (X : X3 mc α Γ cfg hs ι st)
+    {hs : HState} {ι : Nat → Nat} {st : State} (X : X3 mc cw τ Γ cfg hs ι st)
     {kx kx' : Nat} {items : List Code}
     (hrunX : (codeStatementR rvBackend hooks natRen prog.types (.ifc srt a b t e) Γ).run kx = .ok (items, kx'))
     (hatX : KAt ks st.pc items) :
     ∃ cfg' st', stepsTo P 1 cfg cfg' ∧ Reach p mc st st' ∧
-      cfg'.out = cfg.out ∧ cfg'.next = cfg.next ∧
-      RelX P hooks prog ⟨Γ, ρ, if Pos.evalCmp srt va vb then t else e⟩ cfg' ∧ X3 mc α Γ cfg' hs ι st' ∧
+      cfg'.out = cfg.out ∧ cfg'.next = cfg.next ∧ FrameFacts cfg cfg' Γ.length ∧
+      RelX P hooks prog ⟨Γ, ρ, if Pos.evalCmp srt va vb then t else e⟩ cfg' ∧ X3 mc cw τ Γ cfg' hs ι st' ∧
       ∃ k1 k1' items', (codeStatementR rvBackend hooks natRen prog.types
           (if Pos.evalCmp srt va vb then t else e) Γ).run k1 = .ok (items', k1') ∧ KAt ks st'.pc items' :=
   ifc_x3 L hndL hheap R ha hb X hrunX hatX
@@ -130,13 +131,13 @@ theorem C08_call_rv {P : Abs.Program} {hooks : Bool} {prog : AxCut.Prog} {Γ : C
     {args : Ctx} {cfg : Config} {d : Def}
     (R : RelX P hooks prog ⟨Γ, ρ, .call l args⟩ cfg) (D : DefsAt P hooks prog) (DX : KDefsAt ks hooks prog)
     (hd : Pos.findDef prog.defs l = some d) (hchi : Pos.chiTys Γ = Pos.chiTys d.ctx)
-    {hs : HState} {ι : Nat → Nat} {st : State} (X : X3 mc α Γ cfg hs ι st)
+    {hs : HState} {ι : Nat → Nat} {st : State} (X : X3 mc cw τ Γ cfg hs ι st)
     {kx kx' : Nat} {items : List Code}
     (hrunX : (codeStatementR rvBackend hooks natRen prog.types (.call l args) Γ).run kx = .ok (items, kx'))
     (hatX : KAt ks st.pc items) :
     ∃ cfg' st', stepsTo P 1 cfg cfg' ∧ Reach p mc st st' ∧
-      cfg'.out = cfg.out ∧ cfg'.next = cfg.next ∧
-      RelX P hooks prog ⟨d.ctx, ρ, d.body⟩ cfg' ∧ X3 mc α d.ctx cfg' hs ι st' ∧
+      cfg'.out = cfg.out ∧ cfg'.next = cfg.next ∧ FrameFacts cfg cfg' Γ.length ∧
+      RelX P hooks prog ⟨d.ctx, ρ, d.body⟩ cfg' ∧ X3 mc cw τ d.ctx cfg' hs ι st' ∧
       ∃ k1 k1' items', (codeStatementR rvBackend hooks natRen prog.types d.body d.ctx).run k1 = .ok (items', k1') ∧
         KAt ks st'.pc items' :=
   call_x3 L hndL hheap R D DX hd hchi X hrunX hatX
@@ -146,7 +147,7 @@ include L hndL hheap in
 theorem C08_exit_rv {P : Abs.Program} {hooks : Bool} {prog : AxCut.Prog} {Γ : Ctx} {ρ : List Value} {a : Ident}
     {cfg : Config} {v : Word}
     (R : RelX P hooks prog ⟨Γ, ρ, .exit a⟩ cfg) (ha : readInt Γ ρ a = .ok v)
-    {hs : HState} {ι : Nat → Nat} {st : State} (X : X3 mc α Γ cfg hs ι st)
+    {hs : HState} {ι : Nat → Nat} {st : State} (X : X3 mc cw τ Γ cfg hs ι st)
     {kx kx' : Nat} {items : List Code}
     (hrunX : (codeStatementR rvBackend hooks natRen prog.types (.exit a) Γ).run kx = .ok (items, kx'))
     (hatX : KAt ks st.pc items) {ic : Nat} (hclean : labIdx ks "cleanup" = some ic) :
@@ -163,37 +164,61 @@ theorem C08_subst_rv {P : Abs.Program} {hooks : Bool} {prog : AxCut.Prog} {Γ : 
     (hold : ∀ p ∈ pairs, ∃ b ∈ Γ, b.var.id = p.2.id ∧ b.chi = p.1.chi)
     (hcap : 2 * pairs.length + 2 < Mock.T_TEMP)
     (hvs : Pos.step.build Γ ρ pairs = .ok vs)
-    {hsX : HState} {ι : Nat → Nat} {st : State} (X : X3 mc α Γ cfg hsX ι st)
+    {hsX : HState} {ι : Nat → Nat} {st : State} (X : X3 mc cw τ Γ cfg hsX ι st)
     {kx kx' : Nat} {items : List Code}
     (hrunX : (codeStatementR rvBackend hooks natRen prog.types (.subst pairs next) Γ).run kx = .ok (items, kx'))
     (hatX : KAt ks st.pc items)
-    (hcapX : pairs.length ≤ 14) :
+    (hcapX : pairs.length ≤ 14)
+    {Q : Word → Ctx → Clauses → Prop} (CVh : CVals P hooks prog.types Q cw τ cfg.heap cfg.temps Γ ρ) :
     ∃ k cfg' st' hs', stepsTo P k cfg cfg' ∧ Reach p mc st st' ∧ FrLe hsX hs' 0 ∧
       cfg'.out = cfg.out ∧ cfg'.next = cfg.next ∧
       RelX P hooks prog ⟨pairs.map (·.1), vs, next⟩ cfg' ∧
-      X3 mc α (pairs.map (·.1)) cfg' hs' ι st' ∧
+      X3 mc (cwSubst cw Γ pairs) τ (pairs.map (·.1)) cfg' hs' ι st' ∧
+      CVals P hooks prog.types Q (cwSubst cw Γ pairs) τ cfg'.heap cfg'.temps (pairs.map (·.1)) vs ∧
       ∃ k1 k1' items', (codeStatementR rvBackend hooks natRen prog.types next (pairs.map (·.1))).run k1 =
           .ok (items', k1') ∧ KAt ks st'.pc items' :=
-  subst_x3 L hndL hheap R hΓ hnew hold hcap hvs X hrunX hatX hcapX
+  subst_x3 L hndL hheap R hΓ hnew hold hcap hvs X hrunX hatX hcapX CVh
 
 end Rung2
 
 /-! ## rung 3: integer programs -/
 
-/-- print-free integer statements are statements of the run theorem -/
+mutual
+  /-- the statements without `print`: the only statements `step3` (Scc/RV/RefRun.lean) excludes — and it needs
+  no hypothesis for that, because the RV64 backend has no code for `print` (kept from the earlier rungs, where
+  closures were excluded as well) -/
+  def StmtOK : Stmt → Prop
+    | .lit _ _ next _ => StmtOK next
+    | .op _ _ _ _ next _ => StmtOK next
+    | .print _ _ _ _ => False
+    | .ifc _ _ _ t e => StmtOK t ∧ StmtOK e
+    | .exit _ => True
+    | .call _ _ => True
+    | .subst _ next => StmtOK next
+    | .letS _ _ _ _ next _ => StmtOK next
+    | .switch _ _ clauses _ => ClausesOK clauses
+    | .create _ _ _ clauses next _ _ => StmtOK next ∧ ClausesOK clauses
+    | .invoke _ _ _ _ => True
+  def ClausesOK : Clauses → Prop
+    | .nil => True
+    | .cons _ _ body rest => StmtOK body ∧ ClausesOK rest
+end
+
+/-- print-free integer statements contain no `print` -/
 theorem stmtOK_of_int : ∀ (s : Stmt), IntStmt s → printFreeStmt s = true → StmtOK s
   | .lit _ _ next _, h, hp => by
-    simp only [IntStmt, printFreeStmt] at h hp; exact stmtOK_of_int next h hp
+    simp only [IntStmt, printFreeStmt] at h hp; simp only [StmtOK]; exact stmtOK_of_int next h hp
   | .op _ _ _ _ next _, h, hp => by
-    simp only [IntStmt, printFreeStmt] at h hp; exact stmtOK_of_int next h hp
+    simp only [IntStmt, printFreeStmt] at h hp; simp only [StmtOK]; exact stmtOK_of_int next h hp
   | .print _ _ _ _, _, hp => by simp [printFreeStmt] at hp
   | .ifc _ _ _ t e, h, hp => by
     simp only [IntStmt, printFreeStmt, Bool.and_eq_true] at h hp
+    simp only [StmtOK]
     exact ⟨stmtOK_of_int t h.1 hp.1, stmtOK_of_int e h.2 hp.2⟩
-  | .exit _, _, _ => trivial
-  | .call _ _, _, _ => trivial
+  | .exit _, _, _ => by simp only [StmtOK]
+  | .call _ _, _, _ => by simp only [StmtOK]
   | .subst _ next, h, hp => by
-    simp only [IntStmt, printFreeStmt] at h hp; exact stmtOK_of_int next h hp
+    simp only [IntStmt, printFreeStmt] at h hp; simp only [StmtOK]; exact stmtOK_of_int next h hp
   | .letS _ _ _ _ _ _, h, _ => by simp [IntStmt] at h
   | .switch _ _ _ _, h, _ => by simp [IntStmt] at h
   | .create _ _ _ _ _ _ _, h, _ => by simp [IntStmt] at h
@@ -224,7 +249,7 @@ theorem C08_int_programs (p : AxCut.Prog) (args : List Word) (hooks : Bool) (ins
     (hhook : ∀ x ∈ lines, ¬ badHook x.2) :
     ∃ fuel', (runLines lines args fuel' mc).res = .done v :=
   programs_lines p args hooks instrs hdr nargs cX d0 ops c' hsafe htp
-    (fun d hd' => stmtOK_of_int d.body (hip d hd').2 (hpf d hd')) hcompM hfit hcompX hnd hfitX hd hentry hcap fuel v
+    hcompM hfit hcompX hnd hfitX hd hentry hcap fuel v
     hfuel hrun mc hheap htop hbytes lines hhdr hlines hhook
 
 /-- the text of a routine LOADS: the machine's parser reads the printed routine back, up to the text of
